@@ -37,7 +37,6 @@ import (
 	"time"
 
 	"github.com/hashicorp/go-hclog"
-	"github.com/hashicorp/go-raftchunking"
 	"github.com/hashicorp/raft"
 	"google.golang.org/grpc"
 
@@ -67,8 +66,7 @@ type History struct {
 }
 
 type Step struct {
-	Res   string   `json:"res"`             // canonical result, raw
-	Canon string   `json:"canon,omitempty"` // set-valued results sorted (only when it differs from Res)
+	Res   string   `json:"res"`   // canonical result, exactly as returned (list orders included)
 	Delta []string `json:"delta"`           // rows removed / added by this entry
 	Sha   string   `json:"sha"`             // SHA-256 of the full canonical dump after this entry
 	Rows  int      `json:"rows"`
@@ -217,27 +215,6 @@ func (r *replica) applyEntry(e *Entry) (out interface{}, panicked string) {
 	return out, ""
 }
 
-// canonical form of the results that are sets returned as lists in Go-map order
-func canonSetResult(out interface{}) (string, bool) {
-	if cs, ok := out.(raftchunking.ChunkingSuccess); ok {
-		if _, ok := canonSetResult(cs.Response); ok {
-			return canonResult(raftchunking.ChunkingSuccess{Response: sortedVIPResponse(cs.Response.(structs.AssignServiceManualVIPsResponse))}), true
-		}
-		return "", false
-	}
-	if v, ok := out.(structs.AssignServiceManualVIPsResponse); ok && len(v.UnassignedFrom) > 1 {
-		return canonResult(sortedVIPResponse(v)), true
-	}
-	return "", false
-}
-
-func sortedVIPResponse(v structs.AssignServiceManualVIPsResponse) structs.AssignServiceManualVIPsResponse {
-	c := v
-	c.UnassignedFrom = append([]structs.PeeredServiceName(nil), v.UnassignedFrom...)
-	sort.Slice(c.UnassignedFrom, func(i, j int) bool { return canon(c.UnassignedFrom[i]) < canon(c.UnassignedFrom[j]) })
-	return c
-}
-
 func runHistory(h *History, full bool, plant bool) Obs {
 	r := newReplica()
 	defer r.close()
@@ -263,9 +240,6 @@ func runHistory(h *History, full bool, plant bool) Obs {
 		}
 		cur := r.dump()
 		st := Step{Res: canonResult(out), Delta: delta(prev, cur), Sha: cur.sha(), Rows: cur.rows()}
-		if c, ok := canonSetResult(out); ok && c != st.Res {
-			st.Canon = c
-		}
 		if full {
 			st.Full = cur.text()
 		}
